@@ -541,7 +541,7 @@ func (tc *twoChain) actUserDeposit() {
 	}
 	to := tc.L2.pickUser()
 	if r.Chance(tc.p.BadRcpt, 100) {
-		to = []string{"0x1", "cosmos1notbech32", strings.Repeat("z", 300), tc.L2.n.Authority}[r.Intn(4)]
+		to = []string{"0x1", "cosmos1notbech32", strings.Repeat("z", 300), tc.L2.n.Authority, " ", "\t\n", " " + tc.L2.pickUser(), tc.L2.pickUser() + " "}[r.Intn(8)]
 	}
 	var data []byte
 	if r.Chance(tc.p.Hooks, 100) {
@@ -720,6 +720,7 @@ func (tc *twoChain) actPropose() {
 	}
 	dup := r.Chance(1, 2)
 	t := prover.Build(hs, dup)
+	tc.L1.liftTree(t)
 	c := &commitment{Version: []byte{0, 1, 0, 1, 2, 3, 0x7f, 0xff}[r.Intn(8)], Storage: t.Root(), BlockHash: tc.L1.randHash(), Tree: t, Leaves: leaves}
 	root := prover.OutputRoot(c.Version, c.Storage, c.BlockHash)
 	tc.L1.commits[root] = c
